@@ -27,6 +27,23 @@ impl GenCfg {
     pub const HUGE: GenCfg = GenCfg { max_class: 5, pad16: 4, huge: true };
 }
 
+/// size mix for checks whose cost grows with the packet size: mostly small packets, some with
+/// 16 KiB fields (3-byte headers), in the thorough tier also 64 KiB fields
+pub fn cfg_mix(t: &mut Tape, thorough: bool) -> GenCfg {
+    match t.pick(8) {
+        7 => {
+            if thorough {
+                GenCfg::FULL
+            } else {
+                GenCfg::MEDIUM
+            }
+        }
+        6 if thorough => GenCfg::MEDIUM,
+        5 if thorough => GenCfg::MEDIUM,
+        _ => GenCfg::SMALL,
+    }
+}
+
 #[derive(Debug)]
 pub struct GenError(pub String);
 
